@@ -129,6 +129,19 @@ Theorem spz_field_i : forall (h : header) (ps : list prec) (i : nat), (i < lengt
 Proof. exact fields_of_nth. Qed.
 Print Assumptions spz_field_i.
 
+(* a strict prefix of a reference stream is rejected (io.ReadFull fails on the short array), and so
+   is any stream whose header fails Validate (magic, version 1..2, <= 10^7 points, degree <= 3) *)
+Theorem spz_truncated_rejected : forall (h : header) (ps : list prec) (k : nat),
+  header_ok h -> validate h = true -> lengths_match h ps ->
+  (k < length (encode_ref h ps))%nat -> decode (firstn k (encode_ref h ps)) = None.
+Proof. exact decode_prefix_rejected. Qed.
+Print Assumptions spz_truncated_rejected.
+
+Theorem spz_invalid_header_rejected : forall (h : header) (rest : list N),
+  header_ok h -> validate h = false -> decode (enc_header h ++ rest) = None.
+Proof. exact decode_invalid_header. Qed.
+Print Assumptions spz_invalid_header_rejected.
+
 (* (point i, coefficient d, channel c) |-> 3*shDim*i + 3*d + c is a bijection onto [0, 3*shDim*n) *)
 Theorem sh_index_bijective : forall dim n : nat,
   (forall i d c, i < n -> d < dim -> c < 3 -> sh_index dim d i + c < 3 * dim * n)%nat /\
